@@ -336,8 +336,13 @@ def _cond_deps(c):
 
 class GenericLoop(object):
     """loop annotation: execute a symbolic-range ``for`` once, generically"""
-    def __init__(self, counters=('c',)):
+    def __init__(self, counters=('c',), local=False):
         self.counters = set(counters)
+        # local=True: the paths through the body are explored inside the loop (nested decision lists) and joined
+        # afterwards, instead of forking the rest of the function once per body path.  Sound for the same reason the
+        # schema is: nothing assigned in the body survives the loop except stores (logged with their path
+        # conditions), slot tokens and accumulator contributions (each tagged with its path conditions).
+        self.local = local
 
     def run_for(self, interp, s, rng, fr):
         if not isinstance(s.target, ast.Name):
@@ -388,12 +393,15 @@ class GenericLoop(object):
             return
         fr.l[vname] = v
         try:
-            try:
-                interp.exec_block(s.body, fr)
-            except _Continue:
-                pass
-            except _Break:
-                raise CheckerError('line %d: break inside a generic loop needs an invariant' % s.lineno)
+            if self.local:
+                self._run_local(interp, s, fr)
+            else:
+                try:
+                    interp.exec_block(s.body, fr)
+                except _Continue:
+                    pass
+                except _Break:
+                    raise CheckerError('line %d: break inside a generic loop needs an invariant' % s.lineno)
         finally:
             interp.generic.pop()
         # conditions established inside the body (continue-guards) stay on the path only for
@@ -410,6 +418,10 @@ class GenericLoop(object):
                 for rhs, conds in accs[n]:
                     rhs = rhs if isinstance(rhs, P) else P.const(rhs)
                     extra = conds[base_conds + 2:]
+                    sink = getattr(interp, 'term_sink', None)
+                    if sink is not None and not any(a.startswith('SUM{') for a in rhs.atoms()):
+                        # un-summed contribution of one generic iteration (used to read per-term operators off the code)
+                        sink.append((n, tuple(g.var for g in interp.generic) + (sym,), rhs, list(extra)))
                     total = total + make_sum(sym, rng.lo, rng.hi, rhs, extra)
                 init = saved[n]
                 if isinstance(init, Poison):
@@ -425,6 +437,39 @@ class GenericLoop(object):
                 fr.l[n] = Poison(n)
             else:
                 fr.l[n] = Poison(n)
+
+    def _run_local(self, interp, s, fr):
+        outer = interp.path
+        snapshot = dict(fr.l)
+        base = list(outer.conds)
+        work = [[]]
+        npaths = 0
+        try:
+            while work:
+                dec = work.pop()
+                sub = pysym.Path(dec)
+                sub.conds = list(base)
+                sub.log = outer.log
+                sub.obligations = outer.obligations
+                interp.path = sub
+                fr.l.clear()
+                fr.l.update(snapshot)
+                try:
+                    interp.exec_block(s.body, fr)
+                except _Continue:
+                    pass
+                except _Break:
+                    raise CheckerError('line %d: break inside a generic loop needs an invariant' % s.lineno)
+                except pysym.Infeasible:
+                    pass
+                except pysym.SymRaise as e:
+                    raise CheckerError('line %d: exception %s%r inside a locally explored loop body' % (s.lineno, e, getattr(e, 'eargs', ())))
+                work.extend(sub.pending)
+                npaths += 1
+                if npaths > 4000:
+                    raise CheckerError('line %d: path explosion inside a loop body' % s.lineno)
+        finally:
+            interp.path = outer
 
     def run_while(self, interp, s, fr):
         raise CheckerError('generic schema does not apply to while loops')
